@@ -163,10 +163,53 @@ def _stmt(n, par):
 
 # --------------------------------------------------------------------------- ESTABLISH
 
+def _nnf(e, neg=False):
+    """negation normal form of a guard: ('or'|'and', [..]) / ('atom', text) with comparisons flipped under negation"""
+    if isinstance(e, ast.BoolOp):
+        parts = [_nnf(v, neg) for v in e.values]
+        op = "and" if isinstance(e.op, ast.And) else "or"
+        if neg:
+            op = "or" if op == "and" else "and"
+        flat = []
+        for p_ in parts:
+            if p_[0] == op:
+                flat += p_[1]
+            else:
+                flat.append(p_)
+        return (op, flat)
+    if isinstance(e, ast.UnaryOp) and isinstance(e.op, ast.Not):
+        return _nnf(e.operand, not neg)
+    if isinstance(e, ast.Compare) and len(e.ops) == 1:
+        flip = {ast.Eq: "!=", ast.NotEq: "==", ast.Lt: ">=", ast.LtE: ">", ast.Gt: "<=", ast.GtE: "<"}
+        same = {ast.Eq: "==", ast.NotEq: "!=", ast.Lt: "<", ast.LtE: "<=", ast.Gt: ">", ast.GtE: ">="}
+        sym = (flip if neg else same).get(type(e.ops[0]))
+        if sym:
+            return ("atom", (sym, e.left, e.comparators[0]))
+    return ("atom", ("not" if neg else "", e, None))
+
+
+def _disjuncts(f):
+    """list of conjunctions (each a list of atoms) of a guard in NNF"""
+    if f[0] == "atom":
+        return [[f[1]]]
+    if f[0] == "or":
+        out = []
+        for p_ in f[1]:
+            out += _disjuncts(p_)
+        return out
+    # and: cross product
+    acc = [[]]
+    for p_ in f[1]:
+        acc = [x + y for x in acc for y in _disjuncts(p_)]
+    return acc
+
+
 def rule_establish(model: Model):
+    """The core-list branch of the constructor validates before it stores.  Locals are recognised by what they hold, not by name:
+    the shape alias (X = source[i].shape), the order (len(source)), and the three metadata lists by which axis of the shape each
+    branch (3-axis / 4-axis cores) appends to them: R <- last axis, N <- the column mode, M <- the row mode of 4-axis cores."""
     f = model.func(TT + "__init__")
     obs = []
-    # the list branch
     branch = None
     for n in ast.walk(f.node):
         if isinstance(n, ast.If) and "isinstance(source, list)" in norm(n.test):
@@ -175,62 +218,138 @@ def rule_establish(model: Model):
         return [Ob("ESTABLISH", f"{TT}__init__:ESTABLISH:list-branch", ERROR, model.where(f), "isinstance(source, list)",
                    "core-list branch of the constructor not found")]
     body = branch.body
-    raises = c18.raises_with_inner_guard(model, f)
-    inb = {id(x) for s in body for x in ast.walk(s)}
-    rs = [r for r in raises if id(r[0]) in inb]
+    # shape alias(es)
+    shape_alias = {n.targets[0].id for n in ast.walk(branch) if isinstance(n, ast.Assign) and isinstance(n.targets[0], ast.Name)
+                   and isinstance(n.value, ast.Attribute) and n.value.attr == "shape" and norm(n.value.value).startswith("source[")}
+    orders = {n.targets[0].id for n in ast.walk(branch) if isinstance(n, ast.Assign) and isinstance(n.targets[0], ast.Name) and norm(n.value) == "len(source)"}
 
-    def has(exc, need):
-        return any(r[1] == exc and need <= r[2] for r in rs)
-    checks = [("chain", "RankMismatch", {"s", "R"}, "neighbouring cores agree on the shared rank (s[0] != R[-1])"),
-              ("axes", "InvalidArguments", {"s", "len"}, "every core is 3- or 4-axis"),
-              ("final", "InvalidArguments", {"N", "R", "M", "d"}, "d cores, d+1 ranks, boundary ranks 1, all-or-none 4-axis")]
-    for name, exc, need, what in checks:
-        k = f"{TT}__init__:ESTABLISH:guard-{name}"
-        ok = has(exc, need)
-        obs.append(Ob("ESTABLISH", k, OK if ok else VIOLATED, model.where(f, branch), what,
-                      "guard present" if ok else f"the constructor no longer rejects core lists violating: {what}"))
-    # shape of the guards: chain test compares s[0] with R[-1]; final test mentions R[0] != 1, R[-1] != 1, len(N) != d, len(R) != d+1
-    txt = " ".join(norm(n.test).replace(" ", "") for n in ast.walk(branch) if isinstance(n, ast.If))
-    for name, frag, what in [("chain-form", "s[0]!=R[-1]", "left rank of core i equals right rank of core i-1"),
-                             ("first-rank", "R[0]!=1", "first rank is 1"), ("last-rank", "R[-1]!=1", "last rank is 1"),
-                             ("count-N", "len(N)!=d", "one mode per core"), ("count-R", "len(R)!=d+1", "d+1 ranks"),
-                             ("kinds", "len(M)!=0andlen(M)!=len(N)", "cores are all 3-axis or all 4-axis")]:
+    def axis_of(e):
+        """axis index when e is <shape alias>[c] or source[..].shape[c]"""
+        if isinstance(e, ast.Subscript) and isinstance(e.slice, ast.Constant) and isinstance(e.slice.value, int):
+            base = e.value
+            if (isinstance(base, ast.Name) and base.id in shape_alias) or (isinstance(base, ast.Attribute) and base.attr == "shape" and norm(base.value).startswith("source[")):
+                return e.slice.value
+        return None
+
+    def ndim_test(t):
+        """3 / 4 when the test is len(<shape>) == c"""
+        if isinstance(t, ast.Compare) and len(t.ops) == 1 and isinstance(t.ops[0], ast.Eq) and isinstance(t.left, ast.Call) and norm(t.left.func) == "len" \
+                and isinstance(t.comparators[0], ast.Constant):
+            a0 = t.left.args[0]
+            if (isinstance(a0, ast.Name) and a0.id in shape_alias) or (isinstance(a0, ast.Attribute) and a0.attr == "shape"):
+                return t.comparators[0].value
+        return None
+    appends = {}      # list name -> {(ndim, axis)}
+    for n in ast.walk(branch):
+        if isinstance(n, ast.If):
+            chain, cur = [], n
+            while True:
+                chain.append(cur)
+                if len(cur.orelse) == 1 and isinstance(cur.orelse[0], ast.If):
+                    cur = cur.orelse[0]
+                else:
+                    break
+            for c in chain:
+                nd = ndim_test(c.test)
+                if nd is None:
+                    continue
+                for st in c.body:
+                    if isinstance(st, ast.Expr) and isinstance(st.value, ast.Call) and isinstance(st.value.func, ast.Attribute) and st.value.func.attr == "append" \
+                            and isinstance(st.value.func.value, ast.Name) and st.value.args:
+                        ax = axis_of(st.value.args[0])
+                        if ax is not None:
+                            appends.setdefault(st.value.func.value.id, set()).add((nd, ax))
+    role = {}
+    for nm, sig in appends.items():
+        if sig == {(3, 2), (4, 3)}:
+            role["R"] = nm
+        elif sig == {(3, 1), (4, 2)}:
+            role["N"] = nm
+        elif sig == {(4, 1)}:
+            role["M"] = nm
+    want = {"R": "the last axis of each core ((3-axis: 2, 4-axis: 3)", "N": "the column mode (3-axis: 1, 4-axis: 2)", "M": "the row mode of 4-axis cores (axis 1)"}
+    for r_, what in want.items():
+        k = f"{TT}__init__:ESTABLISH:derive-{r_}"
+        ok = r_ in role
+        obs.append(Ob("ESTABLISH", k, OK if ok else VIOLATED, model.where(f, branch), f"{r_} <- {what}",
+                      f"list `{role.get(r_)}` collects it" if ok else
+                      f"no list in the core-list branch collects {what} (found {dict((k_, sorted(v)) for k_, v in appends.items())}): the metadata would not describe the cores"))
+    if len(role) < 3:
+        return obs
+    R, N, M = role["R"], role["N"], role["M"]
+
+    def canon_atom(a):
+        sym, l, r = a
+        if r is None:
+            return norm(l)
+
+        def c(e):
+            t = norm(e).replace(" ", "")
+            for nm, rl in ((R, "R"), (N, "N"), (M, "M")):
+                t = t.replace(f"len({nm})", f"len({rl})")
+                if t.startswith(nm + "["):
+                    t = rl + t[len(nm):]
+            for o in orders:
+                if t == o:
+                    t = "d"
+                elif t == o + "+1":
+                    t = "d+1"
+            t = t.replace("len(source)", "d")
+            ax = axis_of(e)
+            if ax is not None:
+                t = f"shape[{ax}]"
+            return t
+        a_, b_ = c(l), c(r)
+        if sym in ("==", "!=") and a_ > b_:
+            a_, b_ = b_, a_
+        return f"{a_}{sym}{b_}"
+    raising = []      # (If node, set of disjunct strings) for guards that raise
+    for n in ast.walk(branch):
+        if isinstance(n, ast.If) and any(isinstance(x, ast.Raise) for x in n.body):
+            dj = {" and ".join(sorted(canon_atom(a) for a in conj)) for conj in _disjuncts(_nnf(n.test))}
+            raising.append((n, dj))
+    alld = set().union(*[d_ for _, d_ in raising]) if raising else set()
+    need = [("chain", "R[-1]!=shape[0]", "left rank of core i equals right rank of core i-1"),
+            ("first-rank", "1!=R[0]", "first rank is 1"), ("last-rank", "1!=R[-1]", "last rank is 1"),
+            ("count-N", "d!=len(N)", "one mode per core"), ("count-R", "d+1!=len(R)", "d+1 ranks"),
+            ("kinds", "0!=len(M) and len(M)!=len(N)", "cores are all 3-axis or all 4-axis")]
+    for name, frag, what in need:
         k = f"{TT}__init__:ESTABLISH:{name}"
-        ok = frag in txt
+        ok = frag in alld
         obs.append(Ob("ESTABLISH", k, OK if ok else VIOLATED, model.where(f, branch), frag,
-                      "present" if ok else f"validation clause `{frag}` ({what}) is missing from the core-list branch: "
-                      "an ill-formed core list would be accepted"))
-    # guards dominate the store of the cores: store comes after the loop and the final check in the same block
+                      "a raising guard covers it" if ok else f"no raising guard of the core-list branch covers `{frag}` ({what}): "
+                      f"an ill-formed core list would be accepted (guards found: {sorted(alld)[:8]})"))
+    # cores that are neither 3- nor 4-axis are rejected: the ndim dispatch ends in a raise
+    okax = False
+    for n in ast.walk(branch):
+        if isinstance(n, ast.If) and ndim_test(n.test) is not None:
+            cur = n
+            while len(cur.orelse) == 1 and isinstance(cur.orelse[0], ast.If):
+                cur = cur.orelse[0]
+            if any(isinstance(x, ast.Raise) for x in cur.orelse):
+                okax = True
+    obs.append(Ob("ESTABLISH", f"{TT}__init__:ESTABLISH:guard-axes", OK if okax else VIOLATED, model.where(f, branch), "every core is 3- or 4-axis",
+                  "other axis counts raise" if okax else "the constructor no longer rejects cores that are neither 3- nor 4-axis"))
+    # guards dominate the store of the cores
     store_i = guard_i = loop_i = None
-    for i, s in enumerate(body):
-        if isinstance(s, ast.Assign) and any(norm(t) == "self.cores" for t in s.targets):
+    for i, st in enumerate(body):
+        if isinstance(st, ast.Assign) and any(norm(t) == "self.cores" for t in st.targets):
             store_i = i
-        if isinstance(s, ast.If) and any(isinstance(x, ast.Raise) for x in s.body) and "R[0]" in norm(s.test):
+        if isinstance(st, ast.If) and any(isinstance(x, ast.Raise) for x in st.body) and any(st is n for n, _ in raising):
             guard_i = i
-        if isinstance(s, ast.For):
+        if isinstance(st, ast.For):
             loop_i = i
     k = f"{TT}__init__:ESTABLISH:guards-dominate-store"
     ok = store_i is not None and guard_i is not None and loop_i is not None and loop_i < guard_i < store_i
     obs.append(Ob("ESTABLISH", k, OK if ok else VIOLATED, model.where(f, branch), "validation precedes self.cores = source",
                   "the per-core loop and the final check precede the store" if ok else
                   "self.cores is stored before the validation completes (or the validation is no longer top-level in the branch)"))
-    # N/M/R derived from the right axes of each core
-    want = {("3", "R"): "s[2]", ("3", "N"): "s[1]", ("4", "R"): "s[3]", ("4", "M"): "s[1]", ("4", "N"): "s[2]"}
-    got = {}
-    for n in ast.walk(branch):
-        if isinstance(n, ast.If) and norm(n.test).replace(" ", "") in ("len(s)==3", "len(s)==4"):
-            ax = norm(n.test).replace(" ", "")[-1]
-            for s in n.body:
-                if isinstance(s, ast.Expr) and isinstance(s.value, ast.Call) and isinstance(s.value.func, ast.Attribute) \
-                        and s.value.func.attr == "append" and isinstance(s.value.func.value, ast.Name):
-                    got[(ax, s.value.func.value.id)] = norm(s.value.args[0]).replace(" ", "")
-    for kk, v in want.items():
-        k = f"{TT}__init__:ESTABLISH:derive-{kk[1]}-{kk[0]}axis"
-        ok = got.get(kk) == v
-        obs.append(Ob("ESTABLISH", k, OK if ok else VIOLATED, model.where(f, branch), f"{kk[1]}.append({v}) for {kk[0]}-axis cores",
-                      "derived from the core shape" if ok else
-                      f"for {kk[0]}-axis cores {kk[1]} must be taken from {v}, the code uses {got.get(kk)}: the metadata "
-                      "would not describe the cores"))
+    # the validated lists are the ones stored
+    stored = {norm(t): norm(st.value) for st in body if isinstance(st, ast.Assign) for t in st.targets}
+    for fld, rl in (("self.__R", R), ("self.__N", N)):
+        okf = stored.get(fld) == rl
+        obs.append(Ob("ESTABLISH", f"{TT}__init__:ESTABLISH:store-{fld[-1]}", OK if okf else VIOLATED, model.where(f, branch), f"{fld} = <validated list>",
+                      "the validated list is stored" if okf else f"{fld} is not assigned the list that was validated (`{rl}`), found {stored.get(fld)}"))
     return obs
 
 
@@ -277,7 +396,8 @@ def rule_preserve(model: Model):
                           f"the guard compares {sorted(pairs)} and len == {ln}; needed: core.shape[0] vs R[k], core.shape[{last}] vs "
                           f"R[k+1], len(core.shape) vs {int(last) + 1}. A core with a wrong rank or axis count would be stored "
                           "and the object would no longer chain"))
-            store_block = g[0].orelse if raises else []
+            # the stores follow the guard: in its else branch, or after it when the guarded branch raises
+            store_block = (g[0].orelse or stmts[stmts.index(g[0]) + 1:]) if raises else []
             stores = {}
             has_core = False
             for s in store_block:
@@ -306,7 +426,7 @@ def rule_preserve(model: Model):
         obs.append(Ob("PRESERVE", k, OK if ok else VIOLATED, model.where(ff), "self.shape = ...",
                       "shape recomputed after the cores change" if ok else
                       f"{fn} changes cores/N/M but leaves self.shape as it was: x.shape no longer describes the object"))
-    # reduce_dims rebuilds N/M/R from cores_new with the right axes, in both kind branches
+    # reduce_dims rebuilds N/M/R from the reduced core list with the right axes, in both kind branches
     rd = model.func(TT + "reduce_dims")
     kind_if = [s for s in rd.node.body if isinstance(s, ast.If) and "self.__is_ttm" in norm(s.test)]
     if not kind_if:
@@ -314,33 +434,86 @@ def rule_preserve(model: Model):
     else:
         for label, stmts, want in (("ttm", kind_if[0].body, {"_TT__N": "2", "_TT__M": "1", "_TT__R": "3"}),
                                    ("tt", kind_if[0].orelse, {"_TT__N": "1", "_TT__R": "2"})):
-            got, init = {}, {}
-            stored = False
-            for s in stmts:
-                if isinstance(s, ast.Assign) and isinstance(s.targets[0], ast.Attribute) and norm(s.targets[0].value) == "self":
-                    a = mangle("TT", s.targets[0].attr)
-                    init[a] = norm(s.value).replace(" ", "")
-                    if a == "cores" and norm(s.value) == "cores_new":
-                        stored = True
-                if isinstance(s, ast.For) and "len(cores_new)" in norm(s.iter):
-                    for x in s.body:
-                        if isinstance(x, ast.Expr) and isinstance(x.value, ast.Call) and isinstance(x.value.func, ast.Attribute) \
-                                and x.value.func.attr == "append" and norm(x.value.func.value.value) == "self":
-                            a = mangle("TT", x.value.func.value.attr)
-                            src = norm(x.value.args[0]).replace(" ", "")
-                            if src.startswith("cores_new[i].shape["):
-                                got[a] = src[len("cores_new[i].shape["):-1]
+            seqs = _axis_sequences(stmts)
+            stored_list = None
+            for st in stmts:
+                if isinstance(st, ast.Assign) and any(norm(t) == "self.cores" for t in st.targets) and isinstance(st.value, ast.Name):
+                    stored_list = st.value.id
             for fld, ax in want.items():
                 k = f"{TT}reduce_dims:PRESERVE:{label}:{fld}"
-                good_init = init.get(fld) == ("[1]" if fld == "_TT__R" else "[]")
-                ok = got.get(fld) == ax and good_init
-                obs.append(Ob("PRESERVE", k, OK if ok else VIOLATED, model.where(rd), f"{fld[4:]} rebuilt from cores_new[i].shape[{ax}]",
+                got = seqs.get(fld)
+                prefix = "[1]" if fld == "_TT__R" else ""
+                ok = got is not None and got[0] == stored_list and got[1] == ax and got[2] == prefix
+                obs.append(Ob("PRESERVE", k, OK if ok else VIOLATED, model.where(rd), f"{fld[4:]} rebuilt from <new cores>[i].shape[{ax}]",
                               "rebuilt from the new cores" if ok else
-                              f"{fld[4:]} must be reset and rebuilt from cores_new[i].shape[{ax}] (found init {init.get(fld)}, axis {got.get(fld)})"))
+                              f"{fld[4:]} must be reset and rebuilt as {prefix + ' + ' if prefix else ''}[c.shape[{ax}] for c in <the stored core list>] "
+                              f"(found source list {got[0] if got else None}, axis {got[1] if got else None}, prefix {got[2] if got else None}; stored list {stored_list})"))
             k = f"{TT}reduce_dims:PRESERVE:{label}:cores"
-            obs.append(Ob("PRESERVE", k, OK if stored else VIOLATED, model.where(rd), "self.cores = cores_new",
-                          "core list replaced by the reduced list" if stored else "the reduced core list is not stored back"))
+            obs.append(Ob("PRESERVE", k, OK if stored_list else VIOLATED, model.where(rd), "self.cores = <reduced list>",
+                          "core list replaced by the reduced list" if stored_list else "the reduced core list is not stored back"))
     return obs
+
+
+def _axis_sequences(stmts):
+    """{mangled field: (source list name, axis, prefix text)} for fields assigned the sequence <prefix> + [L[i].shape[axis] for all i],
+    written as a comprehension or as reset + append loop"""
+    out = {}
+
+    def elt_axis(e, itervar, lst, idxvar):
+        # c.shape[a]  (c iterates L)   or   L[i].shape[a]  (i ranges over len(L))
+        if isinstance(e, ast.Subscript) and isinstance(e.slice, ast.Constant) and isinstance(e.value, ast.Attribute) and e.value.attr == "shape":
+            base = e.value.value
+            if itervar and isinstance(base, ast.Name) and base.id == itervar:
+                return str(e.slice.value)
+            if idxvar and isinstance(base, ast.Subscript) and isinstance(base.value, ast.Name) and base.value.id == lst and norm(base.slice) == idxvar:
+                return str(e.slice.value)
+        return None
+
+    def comp(e):
+        """(list, axis) for a comprehension over the cores"""
+        if isinstance(e, ast.ListComp) and len(e.generators) == 1 and not e.generators[0].ifs and isinstance(e.generators[0].target, ast.Name):
+            g = e.generators[0]
+            if isinstance(g.iter, ast.Name):
+                ax = elt_axis(e.elt, g.target.id, None, None)
+                return (g.iter.id, ax) if ax is not None else None
+            if isinstance(g.iter, ast.Call) and norm(g.iter.func) == "range" and len(g.iter.args) == 1 and isinstance(g.iter.args[0], ast.Call) \
+                    and norm(g.iter.args[0].func) == "len" and isinstance(g.iter.args[0].args[0], ast.Name):
+                lst = g.iter.args[0].args[0].id
+                ax = elt_axis(e.elt, None, lst, g.target.id)
+                return (lst, ax) if ax is not None else None
+        return None
+    inits = {}
+    for st in stmts:
+        if isinstance(st, ast.Assign) and isinstance(st.targets[0], ast.Attribute) and norm(st.targets[0].value) == "self":
+            fld = mangle("TT", st.targets[0].attr)
+            v = st.value
+            c = comp(v)
+            if c:
+                out[fld] = (c[0], c[1], "")
+                continue
+            if isinstance(v, ast.BinOp) and isinstance(v.op, ast.Add) and comp(v.right):
+                c = comp(v.right)
+                out[fld] = (c[0], c[1], norm(v.left).replace(" ", ""))
+                continue
+            inits[fld] = norm(v).replace(" ", "")
+        if isinstance(st, ast.For) and isinstance(st.target, ast.Name):
+            lst = idx = itv = None
+            if isinstance(st.iter, ast.Name):
+                lst, itv = st.iter.id, st.target.id
+            elif isinstance(st.iter, ast.Call) and norm(st.iter.func) == "range" and len(st.iter.args) == 1 and isinstance(st.iter.args[0], ast.Call) \
+                    and norm(st.iter.args[0].func) == "len" and isinstance(st.iter.args[0].args[0], ast.Name):
+                lst, idx = st.iter.args[0].args[0].id, st.target.id
+            if lst is None:
+                continue
+            for x in st.body:
+                if isinstance(x, ast.Expr) and isinstance(x.value, ast.Call) and isinstance(x.value.func, ast.Attribute) and x.value.func.attr == "append" \
+                        and isinstance(x.value.func.value, ast.Attribute) and norm(x.value.func.value.value) == "self" and x.value.args:
+                    fld = mangle("TT", x.value.func.value.attr)
+                    ax = elt_axis(x.value.args[0], itv, lst, idx)
+                    if ax is not None and fld in inits:
+                        pre = inits[fld]
+                        out[fld] = (lst, ax, "" if pre == "[]" else pre)
+    return out
 
 
 def _exit_blocks(fn):
